@@ -25,7 +25,7 @@ from simkit.rng import seed_globals  # noqa: E402
 from simkit.world import InvalidScenario, Monitor, Violation, result, run_sim  # noqa: E402
 
 PROPERTY = "C11"
-RUNS = {"quick": 4000, "thorough": 400_000}
+RUNS = {"quick": 3500, "thorough": 400_000}
 WALL = {"quick": 45, "thorough": 1500}
 BATCH = {"quick": 40, "thorough": 200}
 SELFTEST_RUNS = 8
